@@ -146,8 +146,14 @@ def _c17_viol(res):
 
 
 def _c09_viol(res):
-    return [dict(stage="builder", id=r["id"], what=[list(b)[:6] for b in r["bad"]][:4], kind="builder")
-            for r in res["builder"]["verdicts"] if r["bad"]]
+    v = [dict(stage="builder", id=r["id"], what=[list(b)[:6] for b in r["bad"]][:4], kind="builder")
+         for r in res["builder"]["verdicts"] if r["bad"]]
+    # what the table generator analysed: the automaton of a decorated text (EMPTY references,
+    # named / bool assignments) against the automaton of the plain text of the same grammar,
+    # and the built grammar against the abstract grammar the text was rendered from
+    v += [dict(stage="tables", id=r["id"], what=r["twindiff"][:6], kind="decoration_twin")
+          for r in res["tables"]["verdicts"] if r.get("twindiff")]
+    return v + _abs_viol(res)
 
 
 def _c08_viol(res):
@@ -181,7 +187,7 @@ PROPS = {
     "C10": dict(stages=["ast"], viol=_c10_viol),
     "C11": dict(stages=["ast", "codegen"], viol=_c11_viol, level="exploration"),
     "C08": dict(stages=["codegen"], viol=_c08_viol),
-    "C09": dict(stages=["builder"], viol=_c09_viol),
+    "C09": dict(stages=["builder", "tables"], viol=_c09_viol),
     "C17": dict(stages=["determinism", "settings"], viol=_c17_viol),
     "C18": dict(stages=["regen"], viol=_c18_viol),
     "C16": dict(stages=["pipeline", "tables", "builder"], viol=_c16_viol),
